@@ -33,6 +33,7 @@ var ProgramPool = []struct {
 	{"example.com/gopls", []string{"v0.14.0", "v0.15.0", "v0.16.0-pre.1"}},
 	{"cmd/go", nil}, // toolchain program: version = Go version
 	{"example.com/other", []string{"v1.0.0", "devel"}},
+	{"example.com/local.tool", []string{"v1.0.0"}}, // its counter files are named local.tool@...: like local reports
 }
 
 var GoVersionPool = []string{"go1.21.0", "go1.22.1", "devel"}
